@@ -423,4 +423,966 @@ theorem digitChar_of_val (c : Char) (n : Nat) (hu : ¬ (65 ≤ c.toNat ∧ c.toN
       · cases h
 
 
+
+/-! ### digit strings: parse then print -/
+
+/-- The three digit alphabets: on a non-upper-case character `val?` inverts `digitChar` and stays below `2^w`. -/
+def GoodAlphabet (w : Nat) (val? : Char → Option Nat) : Prop :=
+  ∀ c n, ¬ (65 ≤ c.toNat ∧ c.toNat ≤ 90) → val? c = some n → n < 2 ^ w ∧ digitChar n = c
+
+theorem good_hex : GoodAlphabet 4 hexVal? := fun c n hu h => ((digitChar_of_val c n hu).1 h)
+theorem good_oct : GoodAlphabet 3 octVal? := fun c n hu h => ((digitChar_of_val c n hu).2.1 h)
+theorem good_bin : GoodAlphabet 1 binVal? := fun c n hu h => ((digitChar_of_val c n hu).2.2 h)
+
+theorem parse_then_print (w : Nat) (hw : 0 < w) (val? : Char → Option Nat) (hg : GoodAlphabet w val?)
+    (t : List Char) (hu : ∀ c ∈ t, ¬ (65 ≤ c.toNat ∧ c.toNat ≤ 90))
+    (hall : t.all (fun c => (val? c).isSome) = true) :
+    digitsToBits w val? t = .ok ((t.filterMap val?).flatMap (natToBits w)) ∧
+    bitsToDigits w ((t.filterMap val?).flatMap (natToBits w)) = .ok t ∧
+    ((t.filterMap val?).flatMap (natToBits w)).length = t.length * w := by
+  induction t with
+  | nil => simp [digitsToBits, bitsToDigits_nil]
+  | cons c t ih =>
+    simp only [List.all_cons, Bool.and_eq_true] at hall
+    obtain ⟨hc, ht⟩ := hall
+    obtain ⟨n, hn⟩ := Option.isSome_iff_exists.mp hc
+    obtain ⟨h1, h2, h3⟩ := ih (fun d hd => hu d (by simp [hd])) ht
+    obtain ⟨hlt, hdc⟩ := hg c n (hu c (by simp)) hn
+    have hfm : (c :: t).filterMap val? = n :: t.filterMap val? := by simp [hn]
+    rw [hfm, List.flatMap_cons]
+    refine ⟨digitsToBits_cons w val? c t n _ hn h1, ?_, ?_⟩
+    · rw [bitsToDigits_append w hw _ _ (natToBits_length w n) t h2, bitsToNat_natToBits w n hlt, hdc]
+    · rw [List.length_append, h3, natToBits_length, List.length_cons]; ring
+
+theorem canon_not_upper (k : StrKind) (s : List Char) : ∀ c ∈ k.canon s, ¬ (65 ≤ c.toNat ∧ c.toNat ≤ 90) := by
+  intro c hc
+  cases k <;> exact tidy_not_upper s c (removeAll2_subset _ _ _ c hc)
+
+theorem good_kind (k : StrKind) : GoodAlphabet k.width k.val? := by
+  cases k
+  · exact good_hex
+  · exact good_oct
+  · exact good_bin
+
+theorem set_eq (k : StrKind) (s : List Char) : k.set s = digitsToBits k.width k.val? (k.canon s) := by
+  cases k <;> rfl
+
+theorem str_set_valid (k : StrKind) (s : List Char) (h : (k.canon s).all (fun c => (k.val? c).isSome) = true) :
+    k.set s = .ok (((k.canon s).filterMap k.val?).flatMap (natToBits k.width)) ∧
+    bitsToDigits k.width (((k.canon s).filterMap k.val?).flatMap (natToBits k.width)) = .ok (k.canon s) ∧
+    (((k.canon s).filterMap k.val?).flatMap (natToBits k.width)).length = (k.canon s).length * k.width := by
+  rw [set_eq]
+  exact parse_then_print k.width (by cases k <;> decide) k.val? (good_kind k) _ (canon_not_upper k s) h
+
+
+/-! ### creation routes -/
+
+/-- The `Dtype` a valid request resolves to. -/
+def dtOf (q : Req) (len : Option Nat) : Dt :=
+  ⟨q.kind, match len with | some n => some n | none => q.kind.allowed.onlyOne⟩
+
+theorem lengthOrCur_some (l : Nat) (cur : Option Nat) : lengthOrCur (some l) cur = some l := rfl
+
+theorem packFloat_length (f : Ieee.Fmt) (p : Nat) : (packFloat f p).length = f.width := by
+  simp [packFloat]
+
+theorem fltFmt_width (n : Nat) (h : n = 16 ∨ n = 32 ∨ n = 64) : (fltFmt n).width = n := by
+  rcases h with rfl | rfl | rfl <;> decide
+
+theorem step8_dvd (n : Nat) (h : (Allowed.step 8 16).contains n = true) : 8 ∣ n := by
+  simp [Allowed.contains] at h; omega
+
+theorem int2bitstore_valid (k : IntKind) (v : Int) (n : Nat)
+    (hr : (if k.signed then decide (-((2 : Int) ^ (n - 1)) ≤ v ∧ v < (2 : Int) ^ (n - 1)) else decide (0 ≤ v ∧ v < (2 : Int) ^ n)) = true) :
+    int2bitstore v n k.signed = .ok (if k.signed then intToBits n v else natToBits n v.toNat) := by
+  unfold int2bitstore
+  cases hs : k.signed <;> simp [hs] at hr ⊢ <;> exact hr
+
+theorem getDtype_valid (q : Req) (len : Option Nat) (hv : Valid q len = true) :
+    getDtype q.kind len = .ok (dtOf q len) := by
+  unfold getDtype dtOf
+  cases len with
+  | none => rfl
+  | some n =>
+    have : q.kind.allowed.contains n = true := by
+      cases q with
+      | int k v => simp [Valid] at hv; simpa [Req.kind] using hv.1.2
+      | str k s =>
+        simp [Valid] at hv
+        cases k <;> simp [Req.kind, StrKind.kind, Kind.allowed, Allowed.contains, StrKind.width] at hv ⊢ <;> omega
+      | flt k p => cases k <;> simp [Valid] at hv <;> simp [Req.kind, FltKind.kind, Kind.allowed, Allowed.contains] <;> omega
+      | bool a => simp [Valid] at hv; simp [Req.kind, Kind.allowed, Allowed.contains, hv.2]
+      | bytes d => simp [Req.kind, Kind.allowed, Allowed.contains]
+      | bits b => simp [Req.kind, Kind.allowed, Allowed.contains]
+      | pad => simp [Req.kind, Kind.allowed, Allowed.contains]
+    simp [this]
+
+
+theorem kind_mult_int (k : IntKind) : k.kind.multiplier = 1 := by cases k <;> rfl
+theorem kind_mult_str (k : StrKind) : k.kind.multiplier = 1 := by cases k <;> rfl
+theorem kind_mult_flt (k : FltKind) : k.kind.multiplier = 1 := by cases k <;> rfl
+theorem kind_needs_int (k : IntKind) : k.kind.setNeedsLength = true := by cases k <;> rfl
+theorem kind_needs_str (k : StrKind) : k.kind.setNeedsLength = true := by cases k <;> rfl
+theorem kind_needs_flt (k : FltKind) : k.kind.setNeedsLength = true := by cases k <;> rfl
+
+/-! inversion of `Valid` -/
+
+theorem valid_int (k : IntKind) (v : Int) (len : Option Nat) (hv : Valid (.int k v) len = true) :
+    ∃ n, len = some n ∧ n ≠ 0 ∧ k.kind.allowed.contains n = true ∧
+      (if k.signed then decide (-((2 : Int) ^ (n - 1)) ≤ v ∧ v < (2 : Int) ^ (n - 1)) else decide (0 ≤ v ∧ v < (2 : Int) ^ n)) = true := by
+  cases len with
+  | none => simp [Valid] at hv
+  | some n =>
+    simp only [Valid, Bool.and_eq_true, ne_eq] at hv
+    exact ⟨n, rfl, by simpa using hv.1.1, hv.1.2, hv.2⟩
+
+theorem valid_str (k : StrKind) (s : List Char) (len : Option Nat) (hv : Valid (.str k s) len = true) :
+    (k.canon s).all (fun c => (k.val? c).isSome) = true ∧ (len = none ∨ len = some ((k.canon s).length * k.width)) := by
+  cases len with
+  | none => exact ⟨by simpa [Valid] using hv, Or.inl rfl⟩
+  | some n =>
+    simp only [Valid, Bool.and_eq_true, decide_eq_true_eq] at hv
+    exact ⟨hv.1, Or.inr (by rw [hv.2])⟩
+
+theorem valid_float (k : FltKind) (hk : k = .floatbe ∨ k = .floatle) (p : Nat) (len : Option Nat)
+    (hv : Valid (.flt k p) len = true) : ∃ n, len = some n ∧ (n = 16 ∨ n = 32 ∨ n = 64) := by
+  rcases hk with rfl | rfl <;> cases len <;> simp [Valid] at hv <;> exact ⟨_, rfl, by omega⟩
+
+theorem valid_bfloat (k : FltKind) (hk : k = .bfloatbe ∨ k = .bfloatle) (p : Nat) (len : Option Nat)
+    (hv : Valid (.flt k p) len = true) : len = none ∨ len = some 16 := by
+  rcases hk with rfl | rfl <;> cases len <;> simp [Valid] at hv <;> simp [hv]
+
+theorem valid_bool (a : BoolArg) (len : Option Nat) (hv : Valid (.bool a) len = true) :
+    a.valid = true ∧ (len = none ∨ len = some 1) := by
+  cases len <;> simp [Valid] at hv <;> simp [hv]
+
+theorem valid_bytes (d : List Nat) (len : Option Nat) (hv : Valid (.bytes d) len = true) :
+    (∀ x ∈ d, x < 256) ∧ (len = none ∨ len = some d.length) := by
+  cases len <;> simp [Valid] at hv
+  · exact ⟨hv, Or.inl rfl⟩
+  · exact ⟨hv.1, Or.inr (by rw [hv.2])⟩
+
+theorem valid_bits (b : Bits) (len : Option Nat) (hv : Valid (.bits b) len = true) :
+    len = none ∨ len = some b.length := by
+  cases len <;> simp [Valid] at hv <;> simp [hv]
+
+theorem resultLen_some (q : Req) (n : Nat) : resultLen q (some n) = n * q.kind.multiplier := rfl
+
+theorem encode_length' (q : Req) (len : Option Nat) (hv : Valid q len = true) :
+    (encode q (resultLen q len)).length = resultLen q len := by
+  cases q with
+  | int k v =>
+    obtain ⟨n, rfl, hn, hc, _⟩ := valid_int k v len hv
+    rw [resultLen_some]; simp only [Req.kind, kind_mult_int, Nat.mul_one]
+    cases k <;> simp only [encode, natToBits_length, intToBits]
+    all_goals
+      rw [bytesRev_length' _ (by rw [natToBits_length]; exact step8_dvd n (by simpa [IntKind.kind, Kind.allowed] using hc)),
+        natToBits_length]
+  | str k s =>
+    obtain ⟨hall, hl⟩ := valid_str k s len hv
+    have h3 := (str_set_valid k s hall).2.2
+    have hres : resultLen (.str k s) len = (k.canon s).length * k.width := by
+      rcases hl with rfl | rfl
+      · simp [resultLen, bitLen, naturalLen]
+      · rw [resultLen_some]; simp [Req.kind, kind_mult_str]
+    rw [hres]; simpa [encode] using h3
+  | flt k p =>
+    cases k
+    · obtain ⟨n, rfl, hn⟩ := valid_float _ (Or.inl rfl) p len hv
+      rw [resultLen_some]; simp only [Req.kind, kind_mult_flt, Nat.mul_one, encode]
+      rw [packFloat_length, fltFmt_width _ hn]
+    · obtain ⟨n, rfl, hn⟩ := valid_float _ (Or.inr rfl) p len hv
+      rw [resultLen_some]; simp only [Req.kind, kind_mult_flt, Nat.mul_one, encode]
+      rw [bytesRev_length' _ (by rw [packFloat_length, fltFmt_width _ hn]; rcases hn with rfl | rfl | rfl <;> decide),
+        packFloat_length, fltFmt_width _ hn]
+    · have hr : resultLen (.flt .bfloatbe p) len = 16 := by
+        rcases valid_bfloat _ (Or.inl rfl) p len hv with rfl | rfl <;> rfl
+      rw [hr]; simp [encode, packFloat_length, Ieee.Fmt.width, Ieee.f32]
+    · have hr : resultLen (.flt .bfloatle p) len = 16 := by
+        rcases valid_bfloat _ (Or.inr rfl) p len hv with rfl | rfl <;> rfl
+      rw [hr]; simp only [encode]
+      rw [bytesRev_length' _ (by simp [packFloat_length, Ieee.Fmt.width, Ieee.f32])]
+      simp [packFloat_length, Ieee.Fmt.width, Ieee.f32]
+  | bool a =>
+    have hr : resultLen (.bool a) len = 1 := by
+      rcases (valid_bool a len hv).2 with rfl | rfl <;> rfl
+    rw [hr]; cases a <;> rfl
+  | bytes d =>
+    have hr : resultLen (.bytes d) len = d.length * 8 := by
+      rcases (valid_bytes d len hv).2 with rfl | rfl <;> rfl
+    rw [hr]; simp [encode, fromBytes_length]
+  | bits b =>
+    have hr : resultLen (.bits b) len = b.length := by
+      rcases valid_bits b len hv with rfl | rfl
+      · rfl
+      · rw [resultLen_some]; simp [Req.kind, Kind.multiplier]
+    rw [hr]; rfl
+  | pad => simp [encode]
+
+
+theorem setInt_valid (k : IntKind) (v : Int) (n : Nat) (cur : Option Nat) (hn : n ≠ 0)
+    (hc : k.kind.allowed.contains n = true)
+    (hr : (if k.signed then decide (-((2 : Int) ^ (n - 1)) ≤ v ∧ v < (2 : Int) ^ (n - 1)) else decide (0 ≤ v ∧ v < (2 : Int) ^ n)) = true) :
+    setInt k v (some n) cur = .ok (encode (.int k v) n) := by
+  unfold setInt
+  rw [lengthOrCur_some]
+  obtain ⟨m, rfl⟩ : ∃ m, n = m + 1 := ⟨n - 1, by omega⟩
+  simp only
+  have h2 := int2bitstore_valid k v (m + 1) hr
+  unfold intle2bitstore
+  rw [h2]
+  cases k <;> simp [IntKind.little, IntKind.signed, encode]
+
+theorem setBool_valid (a : BoolArg) (h : a.valid = true) : setBool a = .ok (encode (.bool a) 1) := by
+  cases a with
+  | py b => rfl
+  | int i =>
+    simp [BoolArg.valid] at h
+    rcases h with rfl | rfl <;> simp [setBool, encode]
+  | str s =>
+    simp only [BoolArg.valid, decide_eq_true_eq] at h
+    rcases h with rfl | rfl | rfl | rfl <;> simp [setBool, encode]
+
+theorem dtSet_valid (q : Req) (len : Option Nat) (hv : Valid q len = true) (cur : Option Nat) :
+    dtSet (dtOf q len) q cur = .ok (encode q (resultLen q len)) := by
+  cases q with
+  | int k v =>
+    obtain ⟨n, rfl, hn, hc, hr⟩ := valid_int k v len hv
+    simp only [dtSet, dtOf, Req.kind, kind_needs_int, if_true, Dt.bitlength, Option.map_some, kind_mult_int,
+      Nat.mul_one, rawSet, resultLen_some]
+    exact setInt_valid k v n cur hn hc hr
+  | str k s =>
+    obtain ⟨hall, _⟩ := valid_str k s len hv
+    simp only [dtSet, dtOf, Req.kind, kind_needs_str, if_true, rawSet]
+    rw [(str_set_valid k s hall).1]; rfl
+  | flt k p =>
+    cases k
+    · obtain ⟨n, rfl, hn⟩ := valid_float _ (Or.inl rfl) p len hv
+      simp only [dtSet, dtOf, Req.kind, kind_needs_flt, if_true, Dt.bitlength, Option.map_some, kind_mult_flt,
+        Nat.mul_one, rawSet, resultLen_some, setFlt, lengthOrCur_some, if_pos hn, float2bitstore, FltKind.big,
+        encode, fltFmt]
+    · obtain ⟨n, rfl, hn⟩ := valid_float _ (Or.inr rfl) p len hv
+      simp only [dtSet, dtOf, Req.kind, kind_needs_flt, if_true, Dt.bitlength, Option.map_some, kind_mult_flt,
+        Nat.mul_one, rawSet, resultLen_some, setFlt, lengthOrCur_some, if_pos hn, float2bitstore, FltKind.big,
+        encode, fltFmt]
+      simp
+    · rcases valid_bfloat _ (Or.inl rfl) p len hv with rfl | rfl <;>
+        simp [dtSet, dtOf, Req.kind, FltKind.kind, Kind.setNeedsLength, Kind.allowed, Allowed.onlyOne, Dt.bitlength,
+          Kind.multiplier, rawSet, setFlt, bfloat2bitstore, FltKind.big, encode]
+    · rcases valid_bfloat _ (Or.inr rfl) p len hv with rfl | rfl <;>
+        simp [dtSet, dtOf, Req.kind, FltKind.kind, Kind.setNeedsLength, Kind.allowed, Allowed.onlyOne, Dt.bitlength,
+          Kind.multiplier, rawSet, setFlt, bfloat2bitstore, FltKind.big, encode]
+  | bool a =>
+    obtain ⟨ha, hl⟩ := valid_bool a len hv
+    have hr : resultLen (.bool a) len = 1 := by rcases hl with rfl | rfl <;> rfl
+    rw [hr]
+    simp only [dtSet, dtOf, Req.kind, Kind.setNeedsLength, rawSet]
+    exact setBool_valid a ha
+  | bytes d => simp [dtSet, dtOf, Req.kind, Kind.setNeedsLength, rawSet, encode]
+  | bits b => simp [dtSet, dtOf, Req.kind, Kind.setNeedsLength, rawSet, encode]
+  | pad =>
+    cases len with
+    | none => rfl
+    | some n => simp [dtSet, dtOf, Req.kind, Kind.setNeedsLength, rawSet, encode, Dt.bitlength, resultLen_some]
+
+theorem dtOf_bitlength_some (q : Req) (n : Nat) : (dtOf q (some n)).bitlength = some (resultLen q (some n)) := rfl
+
+/-- With no length given the resolved dtype either has no bit length or has the value's own. -/
+theorem dtOf_bitlength_none (q : Req) (hv : Valid q none = true) :
+    (dtOf q none).bitlength = none ∨ (dtOf q none).bitlength = some (resultLen q none) := by
+  cases q with
+  | int k v => obtain ⟨n, h, _⟩ := valid_int k v none hv; cases h
+  | str k s => left; cases k <;> rfl
+  | flt k p =>
+    cases k
+    · obtain ⟨n, h, _⟩ := valid_float _ (Or.inl rfl) p none hv; cases h
+    · obtain ⟨n, h, _⟩ := valid_float _ (Or.inr rfl) p none hv; cases h
+    · right; rfl
+    · right; rfl
+  | bool a => right; rfl
+  | bytes d => left; rfl
+  | bits b => left; rfl
+  | pad => left; rfl
+
+
+theorem check_len (q : Req) (len : Option Nat) (hv : Valid q len = true) (n : Nat)
+    (h : (dtOf q len).bitlength = some n) : (encode q (resultLen q len)).length = n := by
+  rw [encode_length' q len hv]
+  cases len with
+  | some m => rw [dtOf_bitlength_some] at h; exact Option.some.inj h
+  | none =>
+    rcases dtOf_bitlength_none q hv with h' | h'
+    · rw [h'] at h; cases h
+    · rw [h'] at h; exact Option.some.inj h
+
+theorem dtBuild_valid (q : Req) (len : Option Nat) (hv : Valid q len = true) :
+    dtBuild (dtOf q len) q = .ok (encode q (resultLen q len)) := by
+  unfold dtBuild
+  rw [dtSet_valid q len hv]
+  simp only
+  cases h : (dtOf q len).bitlength with
+  | none => rfl
+  | some n => simp only; rw [if_neg (by rw [check_len q len hv n h]; simp)]
+
+theorem viaBuild_valid (q : Req) (len : Option Nat) (hv : Valid q len = true) :
+    viaBuild q len = .ok (encode q (resultLen q len)) := by
+  unfold viaBuild
+  rw [getDtype_valid q len hv]
+  exact dtBuild_valid q len hv
+
+theorem bitstoreFromToken_valid (q : Req) (len : Option Nat) (hv : Valid q len = true) :
+    bitstoreFromToken q len = .ok (encode q (resultLen q len)) := by
+  unfold bitstoreFromToken
+  rw [getDtype_valid q len hv]
+  simp only
+  rw [dtBuild_valid q len hv]
+  simp only
+  cases len with
+  | none => rfl
+  | some m =>
+    simp only [dtOf_bitlength_some]
+    rw [if_neg (by rw [encode_length' q (some m) hv]; simp)]
+
+theorem generic_kw_valid (q : Req) (len : Option Nat) (hv : Valid q len = true) :
+    (match getDtype q.kind len with
+      | .error e => Except.error e
+      | .ok d => dtSet d q none) = .ok (encode q (resultLen q len)) := by
+  rw [getDtype_valid q len hv]
+  exact dtSet_valid q len hv none
+
+theorem viaKeyword_valid (q : Req) (len : Option Nat) (hv : Valid q len = true) :
+    viaKeyword q len = .ok (encode q (resultLen q len)) := by
+  cases q with
+  | bytes d =>
+    obtain ⟨_, hl⟩ := valid_bytes d len hv
+    rcases hl with rfl | rfl
+    · rfl
+    · simp only [viaKeyword, Option.map_some, setBytesWithTruncation]
+      rw [if_neg (by omega)]
+      rw [List.take_of_length_le (by rw [fromBytes_length])]
+      rfl
+  | int k v => exact generic_kw_valid _ len hv
+  | str k s => exact generic_kw_valid _ len hv
+  | flt k p => exact generic_kw_valid _ len hv
+  | bool a => exact generic_kw_valid _ len hv
+  | bits b => exact generic_kw_valid _ len hv
+  | pad => exact generic_kw_valid _ len hv
+
+theorem viaNameLen_valid (q : Req) (len : Option Nat) (hv : Valid q len = true) :
+    viaNameLen q len = .ok (encode q (resultLen q len)) := by
+  cases len with
+  | none => exact viaKeyword_valid q none hv
+  | some n => exact generic_kw_valid q (some n) hv
+
+theorem viaProp_valid (q : Req) (len : Option Nat) (hv : Valid q len = true) (hp : q ≠ .pad) :
+    viaProp q ((bitLen q len).getD 0) = .ok (encode q (resultLen q len)) := by
+  unfold viaProp
+  cases q with
+  | int k v =>
+    obtain ⟨n, rfl, hn, hc, hr⟩ := valid_int k v len hv
+    simp only [bitLen, Req.kind, kind_mult_int, Option.map_some, Nat.mul_one, Option.getD_some, rawSet, resultLen_some]
+    have := setInt_valid k v n none hn hc hr
+    unfold setInt at this ⊢
+    rw [lengthOrCur_some] at this
+    have hl : lengthOrCur none (some n) = some n := by simp [lengthOrCur, hn]
+    rw [hl]; exact this
+  | str k s =>
+    obtain ⟨hall, _⟩ := valid_str k s len hv
+    simp only [rawSet]
+    rw [(str_set_valid k s hall).1]; rfl
+  | flt k p =>
+    cases k
+    · obtain ⟨n, rfl, hn⟩ := valid_float _ (Or.inl rfl) p len hv
+      have hl : lengthOrCur none (some n) = some n := by
+        have : n ≠ 0 := by omega
+        simp [lengthOrCur, this]
+      simp only [bitLen, Req.kind, kind_mult_flt, Option.map_some, Nat.mul_one, Option.getD_some, rawSet, setFlt, hl,
+        if_pos hn, resultLen_some, float2bitstore, FltKind.big, encode, fltFmt]
+      simp
+    · obtain ⟨n, rfl, hn⟩ := valid_float _ (Or.inr rfl) p len hv
+      have hl : lengthOrCur none (some n) = some n := by
+        have : n ≠ 0 := by omega
+        simp [lengthOrCur, this]
+      simp only [bitLen, Req.kind, kind_mult_flt, Option.map_some, Nat.mul_one, Option.getD_some, rawSet, setFlt, hl,
+        if_pos hn, resultLen_some, float2bitstore, FltKind.big, encode, fltFmt]
+      simp
+    · simp [rawSet, setFlt, bfloat2bitstore, FltKind.big, encode]
+    · simp [rawSet, setFlt, bfloat2bitstore, FltKind.big, encode]
+  | bool a =>
+    obtain ⟨ha, hl⟩ := valid_bool a len hv
+    have hr : resultLen (.bool a) len = 1 := by rcases hl with rfl | rfl <;> rfl
+    rw [hr]; exact setBool_valid a ha
+  | bytes d => simp [rawSet, encode]
+  | bits b => simp [rawSet, encode]
+  | pad => exact absurd rfl hp
+
+theorem viaPropLen_valid (q : Req) (len : Option Nat) (hv : Valid q len = true) (hp : q ≠ .pad ∨ len ≠ none) :
+    viaPropLen q len ((bitLen q len).getD 0) = .ok (encode q (resultLen q len)) := by
+  cases len with
+  | none =>
+    rcases hp with hp | hp
+    · exact viaProp_valid q none hv hp
+    · exact absurd rfl hp
+  | some n =>
+    simp only [viaPropLen]
+    rw [getDtype_valid q (some n) hv]
+    simp only
+    rw [dtSet_valid q (some n) hv]
+    have hb : (dtOf q (some n)).bitlength = some (encode q (resultLen q (some n))).length := by
+      rw [dtOf_bitlength_some, encode_length' q (some n) hv]
+    rw [hb]; simp
+
+
+theorem stripSpace_canon (k : StrKind) (s : List Char) : k.canon (stripSpace s) = k.canon s := by
+  have : tidy (stripSpace s) = tidy s := by
+    unfold tidy stripSpace
+    rw [List.filter_filter]; simp
+  cases k <;> simp [StrKind.canon, this]
+
+theorem toString_one : (toString (1 : Int)).toList = ['1'] := by decide
+theorem toString_zero : (toString (0 : Int)).toList = ['0'] := by decide
+
+theorem tokenValue_valid (q : Req) (len : Option Nat) (hv : Valid q len = true) (hb : ∀ d, q ≠ .bytes d) :
+    ∃ q', tokenValue q = .ok q' ∧ Valid q' len = true ∧
+      encode q' (resultLen q' len) = encode q (resultLen q len) := by
+  cases q with
+  | int k v => exact ⟨_, rfl, hv, rfl⟩
+  | flt k p => exact ⟨_, rfl, hv, rfl⟩
+  | bits b => exact ⟨_, rfl, hv, rfl⟩
+  | pad => exact ⟨_, rfl, hv, rfl⟩
+  | bytes d => exact absurd rfl (hb d)
+  | str k s =>
+    refine ⟨.str k (stripSpace s), rfl, ?_, ?_⟩
+    · cases len <;> simpa [Valid, stripSpace_canon] using hv
+    · simp [encode, stripSpace_canon]
+  | bool a =>
+    obtain ⟨ha, hl⟩ := valid_bool a len hv
+    have hres : ∀ a', resultLen (.bool a') len = 1 := by intro a'; rcases hl with rfl | rfl <;> rfl
+    cases a with
+    | py b =>
+      refine ⟨_, rfl, ?_, ?_⟩
+      · rcases hl with rfl | rfl <;> cases b <;> decide
+      · rw [hres, hres]; cases b <;> decide
+    | int i =>
+      simp [BoolArg.valid] at ha
+      refine ⟨_, rfl, ?_, ?_⟩
+      · rcases hl with rfl | rfl <;> rcases ha with rfl | rfl <;> decide
+      · rw [hres, hres]; rcases ha with rfl | rfl <;> decide
+    | str s =>
+      simp only [BoolArg.valid, decide_eq_true_eq] at ha
+      refine ⟨_, rfl, ?_, ?_⟩
+      · rcases hl with rfl | rfl <;> rcases ha with rfl | rfl | rfl | rfl <;> decide
+      · rw [hres, hres]; rcases ha with rfl | rfl | rfl | rfl <;> decide
+
+
+theorem viaToken_valid (q : Req) (len : Option Nat) (hv : Valid q len = true) (hb : ∀ d, q ≠ .bytes d) :
+    viaToken q len = .ok (encode q (resultLen q len)) := by
+  obtain ⟨q', h1, h2, h3⟩ := tokenValue_valid q len hv hb
+  unfold viaToken
+  rw [h1]; simp only
+  rw [bitstoreFromToken_valid q' len h2, h3]
+
+theorem viaPack_valid (q : Req) (len : Option Nat) (hv : Valid q len = true) :
+    viaPack q len = .ok (encode q (resultLen q len)) := by
+  cases q with
+  | bits b =>
+    rcases valid_bits b len hv with rfl | rfl
+    · rfl
+    · simp [viaPack, encode]
+  | int k v => exact bitstoreFromToken_valid _ len hv
+  | str k s => exact bitstoreFromToken_valid _ len hv
+  | flt k p => exact bitstoreFromToken_valid _ len hv
+  | bool a => exact bitstoreFromToken_valid _ len hv
+  | bytes d => exact bitstoreFromToken_valid _ len hv
+  | pad => exact bitstoreFromToken_valid _ len hv
+
+theorem routes_agree' (q : Req) (len : Option Nat) (hv : Valid q len = true)
+    (r : Route) (ha : applicable r q len = true) :
+    route r q len = .ok (encode q (resultLen q len)) := by
+  cases r with
+  | kw => exact viaKeyword_valid q len hv
+  | nameLen => exact viaNameLen_valid q len hv
+  | prop =>
+    refine viaProp_valid q len hv ?_
+    rintro rfl; simp [applicable] at ha
+  | propLen =>
+    refine viaPropLen_valid q len hv ?_
+    by_cases hq : q = .pad
+    · subst hq; right; rintro rfl; simp [applicable] at ha
+    · left; exact hq
+  | token =>
+    refine viaToken_valid q len hv ?_
+    rintro d rfl; simp [applicable] at ha
+  | build => exact viaBuild_valid q len hv
+  | pack => exact viaPack_valid q len hv
+
+
+/-! ### a successful creation has the requested length -/
+
+theorem int2bitstore_length (v : Int) (l : Nat) (s : Bool) (x : Bits) (h : int2bitstore v l s = .ok x) : x.length = l := by
+  unfold int2bitstore at h
+  split at h <;> split at h <;> cases h <;> simp [intToBits]
+
+theorem mapM_some_length {α β} (f : α → Option β) (l : List α) (r : List β) (h : l.mapM f = some r) : r.length = l.length := by
+  induction l generalizing r with
+  | nil => simp at h; subst h; rfl
+  | cons a t ih =>
+    rw [mapM_option_cons] at h
+    cases hf : f a with
+    | none => rw [hf] at h; cases h
+    | some b =>
+      rw [hf] at h
+      cases ht : t.mapM f with
+      | none => rw [ht] at h; cases h
+      | some bs =>
+        rw [ht] at h; cases h
+        simp [ih bs ht]
+
+theorem flatMap_natToBits_length (w : Nat) (ds : List Nat) : (ds.flatMap (natToBits w)).length = ds.length * w := by
+  induction ds with
+  | nil => simp
+  | cons a t ih => rw [List.flatMap_cons, List.length_append, ih, natToBits_length, List.length_cons]; ring
+
+theorem digitsToBits_length (w : Nat) (val? : Char → Option Nat) (t : List Char) (b : Bits)
+    (h : digitsToBits w val? t = .ok b) : b.length = t.length * w := by
+  unfold digitsToBits at h
+  cases hm : t.mapM val? with
+  | none => rw [hm] at h; cases h
+  | some ds =>
+    rw [hm] at h; cases h
+    rw [flatMap_natToBits_length, mapM_some_length _ _ _ hm]
+
+theorem setInt_length (k : IntKind) (v : Int) (m : Nat) (cur : Option Nat) (b : Bits)
+    (hc : k.kind.allowed.contains m = true) (h : setInt k v (some m) cur = .ok b) : b.length = m := by
+  unfold setInt at h
+  rw [lengthOrCur_some] at h
+  cases m with
+  | zero => cases h
+  | succ m =>
+    simp only at h
+    by_cases hl : k.little = true
+    · rw [if_pos hl] at h
+      unfold intle2bitstore at h
+      cases hx : int2bitstore v (m + 1) k.signed with
+      | error e => rw [hx] at h; cases h
+      | ok x =>
+        rw [hx] at h; cases h
+        have := int2bitstore_length _ _ _ _ hx
+        have h8 : 8 ∣ m + 1 := by
+          apply step8_dvd
+          cases k <;> simp [IntKind.little] at hl <;> simpa [IntKind.kind, Kind.allowed] using hc
+        rw [bytesRev_length' x (by rw [this]; exact h8), this]
+    · rw [if_neg hl] at h
+      exact int2bitstore_length _ _ _ _ h
+
+section
+attribute [local irreducible] packFloat unpackFloat
+
+theorem float2bitstore_length (p l : Nat) (big : Bool) (hl : l = 16 ∨ l = 32 ∨ l = 64) :
+    (float2bitstore p l big).length = l := by
+  have hw : (packFloat (fltFmt l) p).length = l := by rw [packFloat_length]; exact fltFmt_width l hl
+  have h8 : 8 ∣ l := by rcases hl with rfl | rfl | rfl <;> decide
+  unfold float2bitstore
+  simp only []
+  change (if big = true then packFloat (fltFmt l) p else bytesRev (packFloat (fltFmt l) p)).length = l
+  cases big
+  · rw [if_neg (by simp), bytesRev_length' _ (by rw [hw]; exact h8), hw]
+  · rw [if_pos rfl, hw]
+
+theorem bfloat2bitstore_length (p : Nat) (big : Bool) : (bfloat2bitstore p big).length = 16 := by
+  have hw : ((packFloat Ieee.f32 p).take 16).length = 16 := by
+    rw [List.length_take, packFloat_length]; simp [Ieee.Fmt.width, Ieee.f32]
+  unfold bfloat2bitstore
+  simp only []
+  cases big
+  · rw [if_neg (by simp), bytesRev_length' _ (by rw [hw]; decide), hw]
+  · rw [if_pos rfl, hw]
+
+theorem setFlt_length (k : FltKind) (p m : Nat) (cur : Option Nat) (b : Bits)
+    (h : setFlt k p (some m) cur = .ok b) : b.length = m := by
+  cases k
+  · simp only [setFlt, lengthOrCur_some] at h
+    split at h
+    · cases h; rename_i hm; exact float2bitstore_length p m _ hm
+    · cases h
+  · simp only [setFlt, lengthOrCur_some] at h
+    split at h
+    · cases h; rename_i hm; exact float2bitstore_length p m _ hm
+    · cases h
+  · simp only [setFlt] at h
+    split at h
+    · cases h
+    · rename_i hm; cases h; rw [bfloat2bitstore_length]; omega
+  · simp only [setFlt] at h
+    split at h
+    · cases h
+    · rename_i hm; cases h; rw [bfloat2bitstore_length]; omega
+
+end
+
+theorem setBool_length (a : BoolArg) (b : Bits) (h : setBool a = .ok b) : b.length = 1 := by
+  unfold setBool at h
+  cases a with
+  | py x => cases h; rfl
+  | int i => simp only at h; split at h <;> [skip; split at h] <;> cases h <;> rfl
+  | str s => simp only at h; split at h <;> [skip; split at h] <;> cases h <;> rfl
+
+
+theorem getDtype_some (k : Kind) (m : Nat) (d : Dt) (h : getDtype k (some m) = .ok d) :
+    d = ⟨k, some m⟩ ∧ k.allowed.contains m = true := by
+  unfold getDtype at h
+  simp only at h
+  split at h
+  · cases h; rename_i hc; exact ⟨rfl, hc⟩
+  · cases h
+
+/-- For the dtypes whose `set_fn` takes its length from the value, that length must be the requested one. -/
+def NatOK (q : Req) (n : Nat) : Prop :=
+  match q with
+  | .str _ _ | .bits _ | .bytes _ => naturalLen q = some n
+  | _ => True
+
+theorem dtSet_length (q : Req) (m : Nat) (cur : Option Nat) (b : Bits)
+    (hc : q.kind.allowed.contains m = true) (hnat : NatOK q (m * q.kind.multiplier))
+    (h : dtSet ⟨q.kind, some m⟩ q cur = .ok b) : b.length = m * q.kind.multiplier := by
+  cases q with
+  | int k v =>
+    simp only [dtSet, Req.kind, kind_needs_int, if_true, Dt.bitlength, Option.map_some, kind_mult_int, Nat.mul_one, rawSet] at h ⊢
+    exact setInt_length k v m cur b hc h
+  | flt k p =>
+    simp only [dtSet, Req.kind, kind_needs_flt, if_true, Dt.bitlength, Option.map_some, kind_mult_flt, Nat.mul_one, rawSet] at h ⊢
+    exact setFlt_length k p m cur b h
+  | str k s =>
+    simp only [dtSet, Req.kind, kind_needs_str, if_true, rawSet] at h
+    rw [set_eq] at h
+    have := digitsToBits_length _ _ _ _ h
+    simp only [NatOK, naturalLen, Option.some.injEq] at hnat
+    rw [this, hnat]
+  | bool a =>
+    simp only [dtSet, Req.kind, Kind.setNeedsLength, rawSet] at h
+    have h1 : m = 1 := by simpa [Req.kind, Kind.allowed, Allowed.contains] using hc
+    subst h1
+    simp [Req.kind, Kind.multiplier, setBool_length a b (by simpa using h)]
+  | bytes d =>
+    simp only [dtSet, Req.kind, Kind.setNeedsLength, if_true, rawSet] at h
+    cases h
+    simp only [NatOK, naturalLen, Option.some.injEq] at hnat
+    rw [fromBytes_length]; exact hnat
+  | bits x =>
+    simp only [dtSet, Req.kind, Kind.setNeedsLength, if_true, rawSet] at h
+    cases h
+    simpa [NatOK, naturalLen] using hnat
+  | pad =>
+    simp only [dtSet, Req.kind, Kind.setNeedsLength, if_true, rawSet, Dt.bitlength, Option.map_some, Kind.multiplier] at h ⊢
+    cases h; simp
+
+theorem tokenValue_kind (q q' : Req) (h : tokenValue q = .ok q') : q'.kind = q.kind := by
+  cases q with
+  | bool a => cases a <;> cases h <;> rfl
+  | bytes d => cases h
+  | int k v => cases h; rfl
+  | str k s => cases h; rfl
+  | flt k p => cases h; rfl
+  | bits b => cases h; rfl
+  | pad => cases h; rfl
+
+theorem dtBuild_length (d : Dt) (q : Req) (n : Nat) (b : Bits) (hd : d.bitlength = some n)
+    (h : dtBuild d q = .ok b) : b.length = n := by
+  unfold dtBuild at h
+  cases hs : dtSet d q (some 0) with
+  | error e => rw [hs] at h; cases h
+  | ok x =>
+    rw [hs, hd] at h
+    simp only at h
+    split at h
+    · cases h
+    · cases h; rename_i hx; simpa using hx
+
+theorem bitstoreFromToken_length (q : Req) (m : Nat) (b : Bits)
+    (h : bitstoreFromToken q (some m) = .ok b) : b.length = m * q.kind.multiplier := by
+  unfold bitstoreFromToken at h
+  cases hg : getDtype q.kind (some m) with
+  | error e => rw [hg] at h; cases h
+  | ok d =>
+    rw [hg] at h
+    obtain ⟨rfl, _⟩ := getDtype_some _ _ _ hg
+    simp only at h
+    cases hb : dtBuild ⟨q.kind, some m⟩ q with
+    | error e => rw [hb] at h; cases h
+    | ok x =>
+      rw [hb] at h
+      simp only [Dt.bitlength, Option.map_some] at h
+      split at h
+      · cases h
+      · cases h; exact dtBuild_length _ _ _ _ rfl hb
+
+
+theorem ite_ne_ok (a b : Option Nat) (x y : Bits)
+    (h : (if a ≠ b then (Except.error Err.value : Except Err Bits) else Except.ok x) = Except.ok y) : a = b ∧ x = y := by
+  by_cases hab : a = b
+  · rw [if_neg (by simpa using hab)] at h; cases h; exact ⟨hab, rfl⟩
+  · rw [if_pos hab] at h; cases h
+
+theorem region_natOK (r : Route) (q : Req) (m : Nat) (hr : r = .kw ∨ r = .nameLen)
+    (hb : r = .kw → ∀ d, q ≠ .bytes d)
+    (hreg : kw_length_ignored r q (some m) = false) : NatOK q (m * q.kind.multiplier) := by
+  cases q with
+  | str k s =>
+    rcases hr with rfl | rfl <;>
+      (have := hreg; simp [kw_length_ignored, bitLen, naturalLen, Req.kind] at this; simp [NatOK, naturalLen, Req.kind, this])
+  | bits b =>
+    rcases hr with rfl | rfl <;>
+      (have := hreg; simp [kw_length_ignored, bitLen, naturalLen, Req.kind] at this; simp [NatOK, naturalLen, Req.kind, this])
+  | bytes d =>
+    rcases hr with rfl | rfl
+    · exact absurd rfl (hb rfl d)
+    · have := hreg
+      simp [kw_length_ignored, bitLen, naturalLen, Req.kind] at this
+      simp [NatOK, naturalLen, Req.kind, this]
+  | int k v => trivial
+  | flt k p => trivial
+  | bool a => trivial
+  | pad => trivial
+
+theorem generic_kw_length (q : Req) (m : Nat) (b : Bits) (hnat : NatOK q (m * q.kind.multiplier))
+    (h : (match getDtype q.kind (some m) with
+      | .error e => Except.error e
+      | .ok d => dtSet d q none) = .ok b) : b.length = m * q.kind.multiplier := by
+  cases hg : getDtype q.kind (some m) with
+  | error e => rw [hg] at h; cases h
+  | ok d =>
+    rw [hg] at h
+    obtain ⟨rfl, hc⟩ := getDtype_some _ _ _ hg
+    exact dtSet_length q m none b hc hnat h
+
+theorem route_ok_length_partial' (r : Route) (q : Req) (len : Option Nat) (n : Nat) (b : Bits)
+    (hr : r ≠ .prop) (hreg : kw_length_ignored r q len = false)
+    (hn : bitLen q len = some n) (h : route r q len = .ok b) : b.length = n := by
+  cases len with
+  | none => simp [bitLen] at hn
+  | some m =>
+    have hn' : n = m * q.kind.multiplier := by simpa [bitLen] using hn.symm
+    subst hn'
+    cases r with
+    | prop => exact absurd rfl hr
+    | kw =>
+      cases q with
+      | bytes d =>
+        simp only [route, viaKeyword, Option.map_some, setBytesWithTruncation] at h
+        split at h
+        · cases h
+        · cases h
+          rename_i hle
+          rw [List.length_take, fromBytes_length]
+          simp only [Req.kind, Kind.multiplier]; omega
+      | int k v => exact generic_kw_length _ m b (region_natOK .kw _ m (Or.inl rfl) (fun _ d => by simp) hreg) h
+      | str k s => exact generic_kw_length _ m b (region_natOK .kw _ m (Or.inl rfl) (fun _ d => by simp) hreg) h
+      | flt k p => exact generic_kw_length _ m b (region_natOK .kw _ m (Or.inl rfl) (fun _ d => by simp) hreg) h
+      | bool a => exact generic_kw_length _ m b (region_natOK .kw _ m (Or.inl rfl) (fun _ d => by simp) hreg) h
+      | bits x => exact generic_kw_length _ m b (region_natOK .kw _ m (Or.inl rfl) (fun _ d => by simp) hreg) h
+      | pad => exact generic_kw_length _ m b (region_natOK .kw _ m (Or.inl rfl) (fun _ d => by simp) hreg) h
+    | nameLen =>
+      exact generic_kw_length q m b (region_natOK .nameLen q m (Or.inr rfl) (fun h => by cases h) hreg) h
+    | propLen =>
+      simp only [route, viaPropLen] at h
+      cases hg : getDtype q.kind (some m) with
+      | error e => rw [hg] at h; cases h
+      | ok d =>
+        rw [hg] at h
+        obtain ⟨rfl, _⟩ := getDtype_some _ _ _ hg
+        simp only at h
+        cases hs : dtSet ⟨q.kind, some m⟩ q none with
+        | error e => rw [hs] at h; cases h
+        | ok x =>
+          rw [hs] at h
+          obtain ⟨h1, rfl⟩ := ite_ne_ok _ _ _ _ h
+          exact Option.some.inj h1
+    | token =>
+      simp only [route, viaToken] at h
+      cases ht : tokenValue q with
+      | error e => rw [ht] at h; cases h
+      | ok q' =>
+        rw [ht] at h
+        simp only at h
+        rw [← tokenValue_kind q q' ht]
+        exact bitstoreFromToken_length q' m b h
+    | build =>
+      simp only [route, viaBuild] at h
+      cases hg : getDtype q.kind (some m) with
+      | error e => rw [hg] at h; cases h
+      | ok d =>
+        rw [hg] at h
+        obtain ⟨rfl, _⟩ := getDtype_some _ _ _ hg
+        exact dtBuild_length _ _ _ _ rfl h
+    | pack =>
+      cases q with
+      | bits x =>
+        simp only [route, viaPack] at h
+        split at h
+        · cases h
+        · cases h; rename_i hx; simp [Req.kind, Kind.multiplier]; omega
+      | int k v => exact bitstoreFromToken_length _ m b h
+      | str k s => exact bitstoreFromToken_length _ m b h
+      | flt k p => exact bitstoreFromToken_length _ m b h
+      | bool a => exact bitstoreFromToken_length _ m b h
+      | bytes d => exact bitstoreFromToken_length _ m b h
+      | pad => exact bitstoreFromToken_length _ m b h
+
+
+/-! ### reading -/
+
+section
+attribute [local irreducible] packFloat unpackFloat
+
+theorem groupsOf_one (b : Bits) :
+    (groupsOf 1 b.length b).map (fun g => digitChar (bitsToNat g)) = b.map fun x => if x then '1' else '0' := by
+  induction b with
+  | nil => rfl
+  | cons x t ih =>
+    simp only [List.length_cons, groupsOf, List.take_succ_cons, List.take_zero, List.drop_succ_cons, List.drop_zero,
+      List.map_cons, ih]
+    cases x <;> simp <;> decide
+
+theorem bytesRev_zeros16 : bytesRev (List.replicate 16 false) = List.replicate 16 false := by decide
+
+theorem validLen_allowed (k : Kind) (n : Nat) (h : ValidLen k n = true) : k.allowed.contains n = true := by
+  cases k <;> simp [ValidLen] at h <;> simp [Kind.allowed, Allowed.contains] <;> omega
+
+theorem getFn_valid (k : Kind) (b : Bits) (hl : ValidLen k b.length = true) :
+    getFn k b = .ok (decodeSpec k b) := by
+  unfold getFn
+  rw [if_neg (by simp [validLen_allowed k _ hl])]
+  cases k
+  case uint => simp [ValidLen] at hl; simp [getRaw, decodeSpec, hl]
+  case int => simp [ValidLen] at hl; simp [getRaw, decodeSpec, hl]
+  case uintbe => simp [ValidLen] at hl; simp [getRaw, decodeSpec, hl]
+  case intbe => simp [ValidLen] at hl; simp [getRaw, decodeSpec, hl]
+  case uintle =>
+    simp [ValidLen] at hl
+    simp [getRaw, decodeSpec, hl, bytesRev_value' b (Nat.dvd_of_mod_eq_zero hl.2)]
+  case intle => simp [ValidLen] at hl; simp [getRaw, decodeSpec, hl]
+  case hex => simp [ValidLen] at hl; simp [getRaw, decodeSpec, bitsToDigits, hl]
+  case oct => simp [ValidLen] at hl; simp [getRaw, decodeSpec, bitsToDigits, hl]
+  case bin => simp [getRaw, decodeSpec, bitsToDigits, groupsOf_one, Nat.mod_one]
+  case float =>
+    have : b.length = 16 ∨ b.length = 32 ∨ b.length = 64 := by simpa [ValidLen, or_assoc] using hl
+    simp [getRaw, decodeSpec, this]
+  case floatle =>
+    have : b.length = 16 ∨ b.length = 32 ∨ b.length = 64 := by simpa [ValidLen, or_assoc] using hl
+    simp [getRaw, decodeSpec, this]
+  case bfloat =>
+    have h16 : b.length = 16 := by simpa [ValidLen] using hl
+    simp [getRaw, decodeSpec, h16, fltFmt]
+  case bfloatle =>
+    have h16 : b.length = 16 := by simpa [ValidLen] using hl
+    have hrev : bytesRev (List.replicate 16 false ++ b) = bytesRev b ++ List.replicate 16 false := by
+      rw [bytesRev_append _ b (by simp), bytesRev_zeros16]
+    simp only [getRaw, decodeSpec, List.length_append, List.length_replicate, h16, fltFmt, hrev]
+    simp
+  case bits => rfl
+  case bool =>
+    have h1 : b.length = 1 := by simpa [ValidLen] using hl
+    match b, h1 with
+    | [x], _ => rfl
+  case bytes => simp [ValidLen] at hl; simp [getRaw, decodeSpec, hl]
+  case pad => rfl
+
+end
+
+
+theorem itemsOf_mul (k : Kind) (n : Nat) (hl : ValidLen k n = true) : itemsOf k n * k.multiplier = n := by
+  cases k <;> simp [ValidLen] at hl <;> simp [itemsOf, Kind.multiplier] <;> omega
+
+theorem getDtype_items (k : Kind) (n : Nat) (hl : ValidLen k n = true) :
+    getDtype k (some (itemsOf k n)) = .ok ⟨k, some (itemsOf k n)⟩ := by
+  have : k.allowed.contains (itemsOf k n) = true := by
+    cases k <;> first
+      | (simp [Kind.allowed, Allowed.contains]; done)
+      | (have := validLen_allowed _ n hl; simpa [itemsOf, Kind.multiplier] using this)
+  simp [getDtype, this]
+
+theorem readFn_at (k : Kind) (pre body post : Bits) (hl : ValidLen k body.length = true) :
+    readFn ⟨k, some (itemsOf k body.length)⟩ (pre ++ body ++ post) pre.length = .ok (decodeSpec k body) := by
+  have hdrop : ((pre ++ body ++ post).drop pre.length).take body.length = body := by
+    rw [List.append_assoc, List.drop_left' rfl, List.take_left' rfl]
+  unfold readFn
+  cases ho : k.allowed.onlyOne with
+  | some n' =>
+    simp only
+    have : n' = body.length := by
+      cases k <;> simp [Kind.allowed, Allowed.onlyOne] at ho <;> simp [ValidLen] at hl <;> omega
+    rw [this, hdrop]; exact getFn_valid k body hl
+  | none =>
+    simp only [Dt.bitlength, Option.map_some, itemsOf_mul k _ hl]
+    rw [if_neg (by simp [List.length_append]), hdrop]
+    exact getFn_valid k body hl
+
+theorem readFn_whole (k : Kind) (b : Bits) (hl : ValidLen k b.length = true) :
+    readFn ⟨k, some (itemsOf k b.length)⟩ b 0 = .ok (decodeSpec k b) := by
+  have := readFn_at k [] b [] hl
+  simpa using this
+
+theorem stretchy_ok (k : Kind) (b : Bits) (hl : ValidLen k b.length = true) :
+    ∃ d', resolveStretchy ⟨k, k.allowed.onlyOne⟩ b.length = .ok d' ∧ d'.bitlength = some b.length ∧
+      readFn d' b 0 = .ok (decodeSpec k b) := by
+  have hw := readFn_whole k b hl
+  have hm := itemsOf_mul k _ hl
+  have hg := getDtype_items k _ hl
+  cases ho : k.allowed.onlyOne with
+  | some n' =>
+    have hn : n' = itemsOf k b.length ∧ k.multiplier = 1 := by
+      cases k <;> simp [Kind.allowed, Allowed.onlyOne] at ho <;> simp [ValidLen] at hl <;>
+        simp [itemsOf, Kind.multiplier] <;> omega
+    refine ⟨⟨k, some n'⟩, ?_, ?_, ?_⟩
+    · simp [resolveStretchy, Dt.bitlength]
+    · simp [Dt.bitlength, hn.1, hm]
+    · rw [hn.1]; exact hw
+  | none =>
+    refine ⟨⟨k, some (itemsOf k b.length)⟩, ?_, ?_, ?_⟩
+    · simp only [resolveStretchy, Dt.bitlength, Option.map_none]
+      have : b.length % k.multiplier = 0 := by
+        rw [← hm]; exact Nat.mul_mod_left _ _
+      rw [if_neg (by simp [this])]
+      exact hg
+    · simp [Dt.bitlength, hm]
+    · exact hw
+
+theorem readers_agree' (k : Kind) (b : Bits) (len : Option Nat) (hl : ValidLen k b.length = true)
+    (hlen : len = none ∨ len = some (itemsOf k b.length)) (r : Reader) :
+    reader r k len b = .ok (decodeSpec k b) := by
+  have hf := getFn_valid k b hl
+  have hm := itemsOf_mul k _ hl
+  have hg := getDtype_items k _ hl
+  obtain ⟨d', hs1, hs2, hs3⟩ := stretchy_ok k b hl
+  cases r with
+  | prop => exact hf
+  | propLen =>
+    rcases hlen with rfl | rfl
+    · exact hf
+    · simp only [reader, viaGetPropLen, hg, Dt.bitlength, Option.map_some, hm]
+      simp [hf]
+  | parse =>
+    rcases hlen with rfl | rfl
+    · simp only [reader, viaParse, getDtype]; exact hf
+    · simp only [reader, viaParse, hg]; exact hf
+  | unpack =>
+    rcases hlen with rfl | rfl
+    · simp only [reader, viaUnpack, getDtype, hs1, hs3]
+    · simp only [reader, viaUnpack, hg, resolveStretchy, Dt.bitlength, Option.map_some]
+      exact readFn_whole k b hl
+  | read =>
+    rcases hlen with rfl | rfl
+    · simp only [reader, streamRead, getDtype, Nat.sub_zero, hs1, hs3, hs2, Option.getD_some, Nat.zero_add]
+      simp
+    · simp only [reader, streamRead, hg, resolveStretchy, Dt.bitlength, Option.map_some, readFn_whole k b hl,
+        Option.getD_some, Nat.zero_add, hm]
+      simp
+
+theorem streamRead_at' (k : Kind) (pre body post : Bits) (hl : ValidLen k body.length = true) :
+    streamRead k (some (itemsOf k body.length)) (pre ++ body ++ post) pre.length
+      = .ok (decodeSpec k body, pre.length + body.length) := by
+  simp only [streamRead, getDtype_items k _ hl, resolveStretchy, Dt.bitlength, Option.map_some,
+    readFn_at k pre body post hl, Option.getD_some, itemsOf_mul k _ hl]
+  rw [if_neg (by simp [List.length_append])]
+
 end BM.C02
